@@ -516,8 +516,18 @@ func (self *Fork) resetPartial() error {
 			return err
 		}
 	}
+	splitFailed := false
+	if state, _ := self.split_metadata.getState(); state == Failed {
+		splitFailed = true
+	}
 	if err := self.split_metadata.checkedReset(); err != nil {
 		return err
+	}
+	if splitFailed && self.Split() {
+		// Chunks loaded from what the failed split had left behind are
+		// not the ones the new run of the split will define.
+		self.chunks = nil
+		self.metadatasCache = nil
 	}
 	if state, _ := self.join_metadata.getState(); state == Failed && !self.Split() {
 		// The join of a stage which does not split is only a copy of
